@@ -1,4 +1,6 @@
 import Falcon.Model.Sampler
+import Mathlib.Data.Finset.Card
+import Mathlib.Order.Interval.Finset.Nat
 
 /-!
 # C09 — the integer Gaussian sampler: integer building blocks
@@ -94,6 +96,36 @@ theorem count_gt_iff : ∀ (l : List Nat), decreasing l = true → ∀ (u k : Na
 theorem base_sampler_gt_iff (u k : Nat) (hk : k < 18) :
     baseSamplerU u > k ↔ u < Gen.rcdt.getD k 0 :=
   count_gt_iff Gen.rcdt rcdt_decreasing u k hk
+
+theorem rcdt_le_two72 : ∀ k, k < 18 → Gen.rcdt.getD k 0 ≤ 2 ^ 72 := by decide
+
+/-- **the exact output law as a count**: among the 2^72 equally likely values of the nine random bytes, exactly RCDT[k]
+    give a result above k (k = 0 … 17) — the cumulative distribution the specification tabulates, so under uniform bytes
+    P[base > k] = RCDT[k] / 2^72 exactly -/
+theorem base_sampler_law (k : Nat) (hk : k < 18) :
+    ((Finset.range (2 ^ 72)).filter (fun u => baseSamplerU u > k)).card = Gen.rcdt.getD k 0 := by
+  have hle := rcdt_le_two72 k hk
+  have : (Finset.range (2 ^ 72)).filter (fun u => baseSamplerU u > k) = Finset.range (Gen.rcdt.getD k 0) := by
+    ext u
+    simp only [Finset.mem_filter, Finset.mem_range, base_sampler_gt_iff u k hk]
+    omega
+  rw [this, Finset.card_range]
+
+/-- … and the probabilities of the individual values: #{u : base(u) = k + 1} = RCDT[k] − RCDT[k+1] for k = 0 … 16 -/
+theorem base_sampler_point_law (k : Nat) (hk : k + 1 < 18) :
+    ((Finset.range (2 ^ 72)).filter (fun u => baseSamplerU u = k + 1)).card = Gen.rcdt.getD k 0 - Gen.rcdt.getD (k + 1) 0 := by
+  have h1 := rcdt_le_two72 k (by omega)
+  have hdec : Gen.rcdt.getD (k + 1) 0 ≤ Gen.rcdt.getD k 0 := by
+    have : ∀ j, j < 17 → Gen.rcdt.getD (j + 1) 0 ≤ Gen.rcdt.getD j 0 := by decide
+    exact this k (by omega)
+  have : (Finset.range (2 ^ 72)).filter (fun u => baseSamplerU u = k + 1) =
+      Finset.Ico (Gen.rcdt.getD (k + 1) 0) (Gen.rcdt.getD k 0) := by
+    ext u
+    have a := base_sampler_gt_iff u k (by omega)
+    have b := base_sampler_gt_iff u (k + 1) hk
+    simp only [Finset.mem_filter, Finset.mem_range, Finset.mem_Ico]
+    omega
+  rw [this, Nat.card_Ico]
 
 /-- the result is in {0, …, 18} -/
 theorem base_sampler_range (u : Nat) : baseSamplerU u ≤ 18 := by
